@@ -303,12 +303,24 @@ def _limit_mem():
         pass
 
 
+DOC_LOG = None      # when a list: every whole-document case sent to the implementation is recorded (check.py, DOC_MODEL)
+
+
 def run_impl(cases, timeout_ms=10000, shards=8):
     """run cases through the harness (sharded over processes); a shard whose process dies
     (abort, stack overflow) is re-run case by case so that the culprit is identified"""
     res = {}
     if not cases:
         return res
+    if DOC_LOG is not None:
+        for c in cases:
+            if c.kind in ('doc', 'docfull', 'probe'):
+                DOC_LOG.append((c.fields[0], c.fields[1]))
+    if os.environ.get('VERIF_HARVEST'):     # development aid: collect every whole-document case
+        with open(os.environ['VERIF_HARVEST'], 'a') as hf:
+            for c in cases:
+                if c.kind in ('doc', 'docfull', 'docbytes', 'probe'):
+                    hf.write('%s\t%s\n' % (c.fields[0], c.fields[1]))
     shards = max(1, min(shards, len(cases) // 50 + 1))
     chunks = [cases[i::shards] for i in range(shards)]
     procs = []
